@@ -629,13 +629,30 @@ where
 }
 
 // -- fetchers
+// The library's own wrappers around a parameter are exercised too: the parameter is initialised, refreshed, told
+// about removed archetypes and fetched through `Mutex<P>`, `RwLock<P>` or a tuple `(PhantomData<u8>, P, ())`
+// (selected per registry query), which must behave exactly like `P` itself.
+type TupP<Q> = (std::marker::PhantomData<u8>, Fetcher<'static, Q>, ());
 pub struct FetchP<Q: Query + 'static> {
     kind: u8, // 0 Fetcher, 1 Single, 2 TrySingle
+    wrap: u8, // 0 plain, 1 Mutex, 2 RwLock, 3 tuple
     state: Option<<Fetcher<'static, Q> as HandlerParam>::State>,
+    tstate: Option<<TupP<Q> as HandlerParam>::State>,
 }
 impl<Q: Query + 'static> FetchP<Q> {
-    pub fn new(kind: u8) -> Self {
-        Self { kind, state: None }
+    pub fn new(kind: u8, wrap: u8) -> Self {
+        Self { kind, wrap, state: None, tstate: None }
+    }
+    fn st(&mut self) -> &mut <Fetcher<'static, Q> as HandlerParam>::State {
+        if self.wrap == 3 { &mut self.tstate.as_mut().unwrap().1 } else { self.state.as_mut().unwrap() }
+    }
+    unsafe fn fetcher<'a>(&'a mut self, cx: Ctx<'a>) -> Fetcher<'a, Q> {
+        match self.wrap {
+            1 => <std::sync::Mutex<Fetcher<Q>> as HandlerParam>::get(self.state.as_mut().unwrap(), cx.info, cx.ev, cx.loc, cx.world).into_inner().unwrap(),
+            2 => <std::sync::RwLock<Fetcher<Q>> as HandlerParam>::get(self.state.as_mut().unwrap(), cx.info, cx.ev, cx.loc, cx.world).into_inner().unwrap(),
+            3 => <TupP<Q> as HandlerParam>::get(self.tstate.as_mut().unwrap(), cx.info, cx.ev, cx.loc, cx.world).1,
+            _ => <Fetcher<Q> as HandlerParam>::get(self.state.as_mut().unwrap(), cx.info, cx.ev, cx.loc, cx.world),
+        }
     }
 }
 impl<Q> DynParam for FetchP<Q>
@@ -645,14 +662,18 @@ where
 {
     fn init(&mut self, world: &mut World, config: &mut HandlerConfig) -> Result<(), InitError> {
         // Fetcher, Single and TrySingle share FetcherState::init
-        self.state = Some(<Fetcher<Q> as HandlerParam>::init(world, config)?);
+        match self.wrap {
+            1 => self.state = Some(<std::sync::Mutex<Fetcher<Q>> as HandlerParam>::init(world, config)?),
+            2 => self.state = Some(<std::sync::RwLock<Fetcher<Q>> as HandlerParam>::init(world, config)?),
+            3 => self.tstate = Some(<TupP<Q> as HandlerParam>::init(world, config)?),
+            _ => self.state = Some(<Fetcher<Q> as HandlerParam>::init(world, config)?),
+        }
         Ok(())
     }
     unsafe fn view(&mut self, cx: Ctx<'_>, inv: &mut Inv) {
-        let st = self.state.as_mut().unwrap();
         match self.kind {
             0 => {
-                let mut f = <Fetcher<Q> as HandlerParam>::get(st, cx.info, cx.ev, cx.loc, cx.world);
+                let mut f = self.fetcher(cx);
                 let it = f.iter_mut();
                 let claimed = it.len();
                 let mut items: Vec<String> = it.map(|i| i.render()).collect();
@@ -696,10 +717,12 @@ where
                 }
             }
             1 => {
+                let st = self.st();
                 let s = <Single<Q> as HandlerParam>::get(st, cx.info, cx.ev, cx.loc, cx.world);
                 inv.views.push(format!("1#1{{{}}}", Single::into_inner(s).render()));
             }
             _ => {
+                let st = self.st();
                 let r = <TrySingle<Q> as HandlerParam>::get(st, cx.info, cx.ev, cx.loc, cx.world);
                 inv.views.push(match r {
                     Ok(i) => format!("2#1{{{}}}", i.render()),
@@ -711,18 +734,27 @@ where
     }
     unsafe fn pre(&mut self, cx: Ctx<'_>, sc: &Script) {
         if self.kind == 0 && sc.wdelta != 0 {
-            let st = self.state.as_mut().unwrap();
-            let mut f = <Fetcher<Q> as HandlerParam>::get(st, cx.info, cx.ev, cx.loc, cx.world);
+            let mut f = self.fetcher(cx);
             for mut item in f.iter_mut() {
                 item.bump(sc.wdelta);
             }
         }
     }
     fn refresh(&mut self, arch: &Archetype) {
-        <Fetcher<Q> as HandlerParam>::refresh_archetype(self.state.as_mut().unwrap(), arch)
+        match self.wrap {
+            1 => <std::sync::Mutex<Fetcher<Q>> as HandlerParam>::refresh_archetype(self.state.as_mut().unwrap(), arch),
+            2 => <std::sync::RwLock<Fetcher<Q>> as HandlerParam>::refresh_archetype(self.state.as_mut().unwrap(), arch),
+            3 => <TupP<Q> as HandlerParam>::refresh_archetype(self.tstate.as_mut().unwrap(), arch),
+            _ => <Fetcher<Q> as HandlerParam>::refresh_archetype(self.state.as_mut().unwrap(), arch),
+        }
     }
     fn remove(&mut self, arch: &Archetype) {
-        <Fetcher<Q> as HandlerParam>::remove_archetype(self.state.as_mut().unwrap(), arch)
+        match self.wrap {
+            1 => <std::sync::Mutex<Fetcher<Q>> as HandlerParam>::remove_archetype(self.state.as_mut().unwrap(), arch),
+            2 => <std::sync::RwLock<Fetcher<Q>> as HandlerParam>::remove_archetype(self.state.as_mut().unwrap(), arch),
+            3 => <TupP<Q> as HandlerParam>::remove_archetype(self.tstate.as_mut().unwrap(), arch),
+            _ => <Fetcher<Q> as HandlerParam>::remove_archetype(self.state.as_mut().unwrap(), arch),
+        }
     }
 }
 
